@@ -26,6 +26,18 @@ func memioOp(vars map[int]interface{}, t []string) (res string) {
 	num := func(s string) int { n, _ := strconv.Atoi(s); return n }
 	hx := func(s string) int { n, _ := strconv.ParseUint(s, 16, 32); return int(n) }
 	switch {
+	case t[0] == "putself" && len(t) == 5:
+		// dm.Put(dst, dm[src:src+n]...): the data is a VIEW of the receiver's own backing array (a variadic s... passes the slice header)
+		dm, ok := vars[num(t[1])].(z80.DumbMemory)
+		if !ok {
+			return "bad"
+		}
+		dst, src, n := hx(t[2]), hx(t[3]), num(t[4])
+		if src+n > len(dm) {
+			return "bad"
+		}
+		dm.Put(uint16(dst), dm[src:src+n]...)
+		return "ok"
 	case t[0] == "dm" && len(t) == 3:
 		vars[num(t[1])] = make(z80.DumbMemory, num(t[2]))
 		return "ok"
@@ -336,6 +348,25 @@ func genMemio(r *rng, out *bufio.Writer, n int) {
 					fmt.Fprintf(out, "equal %d %d\n", i, j)
 				}
 			case 14:
+				if r.chance(50) {
+					if i := pick("dm"); i >= 0 && lens[i] >= 4 {
+						// a block moved inside one memory, source and destination overlapping either way (memmove semantics)
+						n := 2 + r.n(6)
+						if n > lens[i]/2 {
+							n = lens[i] / 2
+						}
+						src := r.n(lens[i] - n + 1)
+						dst := src + r.n(2*n+1) - n
+						if dst < 0 {
+							dst = 0
+						}
+						if dst > 65535 {
+							dst = 65535
+						}
+						fmt.Fprintf(out, "putself %d %04x %04x %d\n", i, dst, src, n)
+						break
+					}
+				}
 				i, j := r.n(nv), r.n(nv)
 				kinds[i], lens[i] = kinds[j], lens[j]
 				fmt.Fprintf(out, "alias %d %d\n", i, j)
